@@ -468,6 +468,15 @@ class ConnectedRemotePeer(RemotePeer):
                                                human(block_hash)))
                 return
 
+            parent = coinstate_prior.block_by_hash[block.header.summary.previous_block_hash]
+            if block.height != parent.height + 1:
+                # whatever route the block came by (bulk download skips the in-chain rules): a block that is not exactly
+                # one higher than its parent would corrupt the by-height indexes it is filed under.
+                self.local_peer.logger.info("%15s at height=%d, block received claims height=%d on a parent at height=%d: %s"
+                                            % (self.host, coinstate_prior.head().height, block.height, parent.height,
+                                               human(block_hash)))
+                return
+
             try:
                 validate_block_by_itself(block, int(time()))
             except Exception as e:
